@@ -33,6 +33,7 @@ import (
 	"math"
 	"sort"
 	"strings"
+	"sync/atomic"
 	"testing"
 	"time"
 
@@ -212,6 +213,18 @@ func clip(s string) string {
 	return s
 }
 
+// nonTrivial records a distinct non-trivial case; per process only the first 400 000 are hashed (the
+// thorough tier and the fuzz workers would otherwise hold tens of millions of hashes), the rest is counted.
+var ntCount atomic.Int64
+
+func nonTrivial(canon string) {
+	if ntCount.Add(1) <= 400000 {
+		rec.NonTrivial(canon)
+	} else {
+		rec.Class("nontrivial-beyond-hash-budget")
+	}
+}
+
 func classify(test string, p lpgen.Point, prec string) {
 	rec.Eval()
 	pos := lpgen.EscapePositions(p)
@@ -228,7 +241,7 @@ func classify(test string, p lpgen.Point, prec string) {
 		rec.Class(test + ":no-timestamp")
 	}
 	if pos >= 2 || ext {
-		rec.NonTrivial(test + "|" + lpgen.Canon(p, prec))
+		nonTrivial(test + "|" + lpgen.Canon(p, prec))
 	}
 }
 
@@ -419,7 +432,7 @@ func TestPropSeriesKey(t *testing.T) {
 		rec.Class(fmt.Sprintf("%s:tags=%d", test, len(tags)))
 		c := map[string]any{"name": name, "tags": fmt.Sprintf("%q", tags)}
 		if pos >= 2 {
-			rec.NonTrivial(fmt.Sprintf("%s|%q|%q", test, name, tags))
+			nonTrivial(fmt.Sprintf("%s|%q|%q", test, name, tags))
 		}
 		key := models.MakeKey([]byte(name), mtags(tags))
 		cmpTags := func(what string, got models.Tags) {
@@ -498,7 +511,7 @@ func TestPropRefusals(t *testing.T) {
 		rec.Eval()
 		kind := rapid.SampledFrom([]string{"nan", "+inf", "-inf", "no-fields", "time-below", "time-above", "key-too-long", "key-at-limit"}).Draw(t, "kind")
 		rec.Class(test + ":" + kind)
-		rec.NonTrivial(test + "|" + kind + "|" + lpgen.Canon(p, prec))
+		nonTrivial(test + "|" + kind + "|" + lpgen.Canon(p, prec))
 		ts := time.Unix(0, p.Time)
 		wantErr := true
 		special := any(nil)
